@@ -61,10 +61,13 @@ def run(ck):
     # release of consumers and the closing of streams is attributed to C03
     registry_histories(ck, "C03", q, kinds=("consumer-closed", "stream-closed", "count", "panic"), edge_sample=1500)
 
+    # the management API (administrative delete / stop, listings, table edits, who may call what)
+    from checks import api_common
+    api_common.api_leg(ck, "C03")
 
 META = {
     "text": "Same machinery as C01, with the closer and stopper processes: TLC explores every interleaving of attach / StopConsume / Stream.Close / consumer-goroutine steps (including the window between the closed-check and cond.Wait, and between Load and Delete in Remove) and checks count >= 0, count = registered, and at quiescence transport closed + goroutine gone for every attached consumer of a closed stream / every stopped consumer; schedules are replayed on the real code, quiescence and parked goroutines are read from goroutine states, and the census is validated by TLC. A converter leg covers the three conversion goroutines: ConvLoop.tla (loop / Close protocol, bare signal as negative control) and, on the real rtp.Demuxer / flv.Muxer / mpegts.Muxer, the schedule in which Close runs while the goroutine stands between its loop condition and the blocking Pop (hook conv.loop), plus 200 free-running NewStream / Close cycles.",
     "note": "Trusted: TLC, FanoutProp.tla as transcription of the statement, the gate scheduler (one process runs between two hooks; quiescence from goroutine states), recording consumers (payload compared byte-wise with a copy taken before publication). Transport adapters (TCP/UDP/WS/FLV writers) are covered by the server-level checks, not here.",
     "technique": "TLA+ implementation-level model checked by TLC against property invariants; TLC-generated schedules replayed on real code via hook gates; TLC trace validation (property level and step level)",
-    "specs": ["fanout"],
+    "specs": ["api", "fanout"],
 }
